@@ -45,10 +45,17 @@ func vnetStores(lite, stub bool) []config.Store {
 	return []config.Store{mk(0, 4001, 0), mk(1, 4002, 4001), mk(2, 4003, 4001)}
 }
 
+// vnetRestartB > 0: B restarts (stop at that time, a new instance of the same configuration ten seconds later).
+var vnetRestartB time.Duration
+
 func vnetRun(t *testing.T, lite, stub bool, faults []string) vlife.Result {
 	names := []string{"A", "B", "C"}
+	if vnetRestartB > 0 {
+		names = []string{"A", "B'", "C"} // after the restart the running list is A, B', C (before: A, B)
+	}
 	return vlife.Run(t, vnetStores(lite, stub), faults, vlife.Options{
-		Horizon: 330 * time.Second, LateStart: 150 * time.Second, ExpectPeering: true, ListenAddr: "127.0.0.1:4001",
+		RestartB: vnetRestartB,
+		Horizon:  330 * time.Second, LateStart: 150 * time.Second, ExpectPeering: true, ListenAddr: "127.0.0.1:4001",
 		Sample: func(at time.Duration, running []*mycoria.Instance) (out []string) {
 			for i, inst := range running {
 				for _, p := range vlife.RegistryInvariant(names[i], inst) {
@@ -64,10 +71,11 @@ func vnetRun(t *testing.T, lite, stub bool, faults []string) vlife.Result {
 func runVnet(t *testing.T, rep *kit.Report, env kit.Env) {
 	var evals, nontrivial int64
 	caseNo := 0
-	flavours := [][2]bool{{false, false}, {true, true}}
-	if !env.Deep() {
-		flavours = flavours[:1]
-	}
+	// (lite B, stub C, restart of B): plain; plain with a restart of B after 60 s; lite + stub.
+	type flavour = [2]bool
+	flavours := []flavour{{false, false}, {false, false}, {true, true}}
+	restarts := []time.Duration{0, 60 * time.Second, 0}
+	defer func() { vnetRestartB = 0 }()
 	report := func(fl [2]bool, faults []string, r vlife.Result) {
 		seen := map[string]bool{}
 		for _, p := range r.Problems {
@@ -93,10 +101,11 @@ func runVnet(t *testing.T, rep *kit.Report, env kit.Env) {
 				continue
 			}
 			seen[key] = true
-			rep.Violate(key, fmt.Sprintf("%s — real instances on the virtual network (A listens, B dials A at once, C after 150 s; lite B=%v stub C=%v); failed operations: %v", kv[1], fl[0], fl[1], faults), map[string]any{"lite": fl[0], "stub": fl[1], "faults": faults})
+			rep.Violate(key, fmt.Sprintf("%s — real instances on the virtual network (A listens, B dials A at once, C after 150 s; lite B=%v stub C=%v); failed operations: %v; restart of B after: %v", kv[1], fl[0], fl[1], faults, vnetRestartB), map[string]any{"lite": fl[0], "stub": fl[1], "faults": faults, "restart_b_after": vnetRestartB.String()})
 		}
 	}
-	for _, fl := range flavours {
+	for fi, fl := range flavours {
+		vnetRestartB = restarts[fi]
 		base := vnetRun(t, fl[0], fl[1], nil)
 		if env.Mine(0) {
 			evals++
@@ -106,7 +115,7 @@ func runVnet(t *testing.T, rep *kit.Report, env kit.Env) {
 		if len(base.Problems) > 0 {
 			continue
 		}
-		rep.Bounds[fmt.Sprintf("vnet_fault_points_lite=%v_stub=%v", fl[0], fl[1])] = len(base.Ops)
+		rep.Bounds[fmt.Sprintf("vnet_fault_points_lite=%v_stub=%v_restartB=%v", fl[0], fl[1], vnetRestartB)] = len(base.Ops)
 		baseSet := map[string]bool{}
 		for _, o := range base.Ops {
 			baseSet[o] = true
